@@ -2,10 +2,55 @@
 
 Round trip: an independent encoder writes frame records as LAMMPS 'ITEM:' text; the expected values
 are recomputed from the *decimal strings written* (so formatting loss is never charged to the reader).
+
+CLAUSES (statement / quantifier axis -> facet(s); deciding assertion; populated class tags)
+  1 well-formed LAMMPS text dump, "every file a simulation can emit" (text layer)
+      -> all facets draw a `layout`; classes: layout-plain | layout-lammps (exactly what `dump atom/custom` prints:
+         bounds %.16e, trailing blank after the ATOMS header and after every atom line) | layout-mixed; eol-crlf (the
+         repository's own sample files), sep-double / sep-tab / sep-mixed / sep-pad (right-aligned columns as in
+         2d_triclinic.atom), trail-blank, no-final-newline, header-no-flags (old LAMMPS: 'ITEM: BOX BOUNDS' without
+         boundary flags), bounds-fmt-%.16e, number formats fmt%g / %.6f / %.10e (scientific) / %.17g / %.3f
+  2 2D or 3D                                   -> d2 / d3 (every facet); 2D with and without a z column (zcol)
+  3 x, xs, xu coordinate style                 -> x / xs / xu; ortho_x_xu, ortho_xs, tri_x, tri_xs, tri_xu
+  4 orthogonal or triclinic, tilts either sign -> ortho / tri / negtilt (tri_* facets, multi_frame, sizes, sequence)
+  5 atom lines in any order                    -> shuffled / ordered; order-reversed, order-random in `sizes`
+  6 any number of frames                       -> frames1..4 (multi_frame), frames-boundary-<T> (sizes: T around 32,
+         50, 64, 100, 128, 256 [thorough: 500, 512, 1000, 1024]); one snapshot per frame in file order whatever the
+         TIMESTEP lines say: timesteps-increasing / -repeat-consecutive / -unordered, same frame written twice
+  7 extra trailing columns                     -> extras (0..3 numeric, named), extra-element (a NON-numeric trailing
+         column, `dump custom ... element`), first or last among the trailing columns
+  8 timestep                                   -> exact integer equality; ts-small / ts-ge-2^31 / ts-ge-2^53 / ts-ge-2^62
+  9 particle count                             -> N0 (empty frame, last or not), N1 (exactly one atom line), N2-12,
+         size-boundary-<N> (sizes: B-1, B, B+1, 2B-1, 2B+1, B+B//3 for B in 32..256 quick, ..1024 thorough),
+         N-varies / N-constant between frames, long-file-<k>KiB (file length beyond 8 KiB / 64 KiB / 1 MiB buffers)
+ 10 per-id particle types                      -> exact equality by id; types-1-9 / types-wide (labels up to 2^31-1)
+ 11 per-id Cartesian positions                 -> rtol 1e-12 against the value recomputed from the written strings
+ 12 box lengths, bounds, cell matrix           -> boxlength, boxbounds, realbounds (tri), hmatrix rows a,b,c cut to d;
+         origin / origin0, cubic / unequal edges
+ 13 scaled -> Cartesian through the cell incl. origin -> ortho_xs, tri_xs (lo + s.H with the REAL origin)
+ 14 unwrapped returned verbatim                -> ortho_x_xu (xu), tri_xu; excursions up to +-5 cells
+ 15 wrapped (x, orthogonal): moved by at most one box length per axis, end inside the box, otherwise unchanged
+      -> wrap-inside (nothing to move: the everyday file), wrap-all-low, wrap-all-high (every coordinate of every atom
+         outside on the same side: batch-level short-cuts), wrap-mixed, wrap-one-out (a single coordinate outside),
+         wrap-on-face (coordinates printed exactly equal to a bound: either periodic image is accepted — ambiguity
+         rule — but the result must be one of them and inside the box)
+ 16 read through read_lammps_wrapper and DumpReader (default file type and DumpFileType.LAMMPS)
+      -> every case; call variants: name-abs / name-bare / name-sub / name-space (file-name forms), ndim-np-int64,
+         reader-opts-ignored (moltypes / columnsids given to a LAMMPS-type DumpReader are not used)
+ 17 results stay what they were (EXTENSION_3 class 3), state between reads (EXTENSION_1 class 3, EXTENSION_2 class 6)
+      -> facet `sequence`: several files read in turn under re-used file names (contents replaced between reads),
+         one DumpReader object evaluated repeatedly, equal shapes across files; every result is compared at return,
+         copied, and ALL results are compared again (with the oracle and bit-for-bit with their copies) at the end;
+         multi_frame `trajectory` mode (same N / cell / types in all frames — the everyday trajectory)
+Not in the domain (the unchanged reader does not accept it and LAMMPS does not write it): blank lines after the last
+frame, column orders other than `id type <coords> ...` (dump custom with another order), ITEM: UNITS / ITEM: TIME
+records, general-triclinic 'abc origin' headers, coordinate columns among the trailing columns, xs outside [0,1).
 """
 from __future__ import annotations
 
+import copy
 import os
+import zlib
 
 import numpy as np
 from hypothesis import strategies as st
@@ -20,50 +65,132 @@ from PyMatterSim.reader.lammps_reader_helper import read_lammps_wrapper
 from PyMatterSim.reader.reader_utils import DumpFileType
 
 RULE = ("frame records -> LAMMPS dump text by an independent encoder; axes: ndim x style {x,xs,xu} x cell {ortho,tri "
-        "with tilts of either sign} x N 0..12 x frames 1..4 x id permutation x types 1..9 x 0..3 trailing columns x "
-        "boundary flags x number formats x origins x timesteps. non-trivial = atoms not in id order, or origin != 0, "
-        "or a tilt != 0, or style != x, or >= 2 frames")
-ASSUMPTIONS = ["well-formed files only: header at column 0, ids are a permutation of 1..N, scaled coordinates in [0,1)",
-               "wrapped style: excursions of less than one box length",
-               "expected values are float() of the written decimal strings; comparison rtol 1e-12"]
+        "with tilts of either sign} x N 0..12 (size-boundary classes up to 1025 / 2049) x frames 1..4 (boundary classes "
+        "up to 257 / 1025) x id permutation x types (1..9, wide labels) x 0..3 numeric + optional non-numeric trailing "
+        "columns x boundary flags x number formats x text layout (LF / CRLF, blanks / tabs / padded columns, trailing "
+        "blanks, final newline, bounds format, header flags) x origins x timesteps up to 2^63-1 x timestep schedules x "
+        "wrap classes x call variants (file-name form, ndim type, DumpReader options) x read sequences. non-trivial = "
+        "atoms not in id order, or origin != 0, or a tilt != 0, or style != x, or >= 2 frames")
+ASSUMPTIONS = ["well-formed files only: header at column 0, ids are a permutation of 1..N, scaled coordinates in [0,1), "
+               "columns `id type <coords> [trailing columns]`, no blank line after the last frame",
+               "wrapped style: excursions of less than one box length; a coordinate within 1e-9 (relative) of a box "
+               "face may be returned as either periodic image (ambiguity rule), but must be one of them",
+               "expected values are float() of the written decimal strings; comparison rtol 1e-12",
+               "size-boundary / long-file classes are built by numpy's Generator from a Hypothesis-drawn seed (the "
+               "Hypothesis byte stream cannot carry thousands of atoms)"]
+MANIFEST = {
+    "text": ("LAMMPS dump -> Snapshots round trip over 2D/3D x {x,xs,xu} x {orthogonal, triclinic} x line order x frame "
+             "counts x trailing columns x text layouts (LF/CRLF, tabs, padded columns, trailing blanks, LAMMPS' own "
+             "formats) x sizes around block boundaries x timesteps to 2^63-1 x read sequences with results kept alive "
+             "(facets ortho_x_xu, ortho_xs, tri_x, tri_xs, tri_xu, multi_frame, sizes, sequence + coverage-guided shards)"),
+    "note": ("oracle = independent encoder; expected values recomputed from the decimal strings written; well-formed "
+             "files only; face-coordinates of wrapped style may be either image; numpy trusted"),
+    "technique": "property-based testing (Hypothesis): round trip encoder -> reader, model-based comparison on read sequences",
+}
 
 FORMATS = ["%.17g", "%.6f", "%.10e", "%g", "%.3f"]
 FLAGS = ["pp pp pp", "pp ff pp", "ff ff ff", "pp pp fs", "pm pm pp", "fs ss mm"]
 EXTRA_NAMES = ["vx", "vy", "vz", "c_pe", "q", "ix", "iy", "radius", "fx", "v_myvar", "mass", "mol"]
+ELEMENTS = ["Si", "O", "H", "C", "Fe", "Cu", "Zr"]
+WIDE_TYPES = [1, 2, 12, 100, 127, 128, 255, 256, 32767, 32768, 65536, 2 ** 31 - 1]
+
+LAYOUT_PLAIN = {"eol": "\n", "sep": "1", "trail": False, "final_newline": True, "bfmt": None, "hdr_flags": True}
+LAYOUT_LAMMPS = {"eol": "\n", "sep": "1", "trail": True, "final_newline": True, "bfmt": "%.16e", "hdr_flags": True}
+CALL_PLAIN = {"fname": "abs", "ndim_as": "int", "reader_opts": False}
+BLOCKS_QUICK = [32, 64, 100, 128, 256]
+BLOCKS_THOROUGH = [50, 200, 500, 512, 1000, 1024]
+
+
+# ----------------------------------------------------------------------------- generators
 
 
 @st.composite
-def frame_st(draw, d, style, cellkind, fmt):
-    cell = draw(cell_st(d, cellkind, lmin=0.5, lmax=50.0))
-    # N = 0 is a frame LAMMPS writes when the dumped group / threshold selection is empty at that step
-    N = draw(st.one_of(st.integers(1, 12), st.integers(1, 12), st.integers(1, 12), st.integers(0, 3)))
+def layout_st(draw):
+    kind = draw(st.sampled_from(["plain", "plain", "lammps", "lammps", "mixed", "mixed", "mixed"]))
+    if kind == "plain":
+        lay = dict(LAYOUT_PLAIN)
+    elif kind == "lammps":
+        lay = dict(LAYOUT_LAMMPS)
+        lay["eol"] = draw(st.sampled_from(["\n", "\n", "\r\n"]))   # the repository's sample files are CRLF copies
+    else:
+        lay = {"eol": draw(st.sampled_from(["\n", "\r\n"])),
+               "sep": draw(st.sampled_from(["1", "2", "tab", "mixed", "pad"])),
+               "trail": draw(st.booleans()),
+               "final_newline": draw(st.sampled_from([True, True, False])),
+               "bfmt": draw(st.sampled_from([None, "%.16e", "%.6f", "%g"])),
+               "hdr_flags": draw(st.sampled_from([True, True, True, False]))}
+    lay["kind"] = kind
+    return lay
+
+
+@st.composite
+def call_st(draw):
+    if draw(st.integers(0, 2)) == 0:
+        return dict(CALL_PLAIN)
+    return {"fname": draw(st.sampled_from(["abs", "bare", "sub", "space"])),
+            "ndim_as": draw(st.sampled_from(["int", "int", "np.int64"])),
+            "reader_opts": draw(st.booleans())}
+
+
+def _wrap_exc(draw, f, mode):
+    """Excursions (in box lengths) for the wrapped style, by batch class.  Coordinate written = lo + (f + exc) L."""
+    N, d = f.shape
+    u = draw(hnp.arrays(np.float64, (N, d), elements=fl(0.001, 0.98))) if N else np.zeros((N, d))
+    if mode == "inside" or N == 0:
+        return np.zeros((N, d))
+    if mode == "all-low":
+        return -u - f
+    if mode == "all-high":
+        return 1.0 + u - f
+    if mode == "one-out":
+        exc = np.zeros((N, d))
+        i, k = draw(st.integers(0, N - 1)), draw(st.integers(0, d - 1))
+        exc[i, k] = (-u[i, k] - f[i, k]) if draw(st.booleans()) else (1.0 + u[i, k] - f[i, k])
+        return exc
+    if mode == "on-face":
+        # some coordinates exactly on the lower / upper face (printed with the same format as the bounds)
+        zone = draw(hnp.arrays(np.int8, (N, d), elements=st.sampled_from([0, 0, 1, 2])))
+        return np.where(zone == 1, -f, np.where(zone == 2, 1.0 - f, 0.0))
+    return draw(hnp.arrays(np.float64, (N, d), elements=st.one_of(st.just(0.0), st.just(0.0), fl(-0.99, 0.99))))
+
+
+@st.composite
+def frame_st(draw, d, style, cellkind, fmt, cell=None, N=None):
+    if cell is None:
+        cell = draw(cell_st(d, cellkind, lmin=0.5, lmax=50.0))
+    if N is None:
+        # N = 0 is a frame LAMMPS writes when the dumped group / threshold selection is empty at that step
+        N = draw(st.one_of(st.integers(1, 12), st.integers(1, 12), st.integers(1, 12), st.integers(0, 3)))
     ids = np.array(draw(st.permutations(range(1, N + 1))), dtype=int)
     if draw(st.integers(0, 4)) == 0:
         ids = np.arange(1, N + 1)
-    types = np.array(draw(st.lists(st.integers(1, 9), min_size=N, max_size=N)), dtype=int)
+    tpool = st.integers(1, 9) if draw(st.integers(0, 4)) else st.sampled_from(WIDE_TYPES)
+    types = np.array(draw(st.lists(tpool, min_size=N, max_size=N)), dtype=np.int64)
     f = draw(frac_st(N, d))
     exc = np.zeros((N, d))
-    if style == "x" and cellkind == "ortho":
-        # wrapped style: some atoms/axes carry an excursion of less than one box length either side
-        exc = draw(hnp.arrays(np.float64, (N, d), elements=st.one_of(st.just(0.0), st.just(0.0), fl(-0.99, 0.99))))
+    wrapmode = None
+    if style == "x" and cell["kind"] == "ortho":
+        # wrapped style: excursions of less than one box length either side, by batch class
+        wrapmode = draw(st.sampled_from(["mixed", "mixed", "inside", "all-low", "all-high", "one-out", "on-face"]))
+        exc = _wrap_exc(draw, f, wrapmode)
     elif style == "xu":
         exc = draw(hnp.arrays(np.float64, (N, d), elements=st.one_of(st.just(0.0), fl(-5.0, 5.0)))).round(3)
     nextra = draw(st.integers(0, 3))
     names = draw(st.lists(st.sampled_from(EXTRA_NAMES), min_size=nextra, max_size=nextra, unique=True))
     extras = draw(hnp.arrays(np.float64, (N, nextra), elements=fl(-100.0, 100.0)))
+    elem = None
+    if draw(st.integers(0, 4)) == 0:
+        elem = {"values": draw(st.lists(st.sampled_from(ELEMENTS), min_size=N, max_size=N)), "first": draw(st.booleans())}
     return {"cell": cell, "ids": ids, "types": types, "f": f, "exc": exc, "extra_names": names, "extras": extras,
-            "flags": draw(st.sampled_from(FLAGS)), "zcol": draw(st.booleans()) if d == 2 else False}
+            "flags": draw(st.sampled_from(FLAGS)), "zcol": draw(st.booleans()) if d == 2 else False, "elem": elem,
+            "wrapmode": wrapmode}
 
 
-@st.composite
-def dump_st(draw, cellkinds=("ortho", "tri"), styles=("x", "xs", "xu"), frames=(1, 1)):
-    d = draw(st.sampled_from([2, 3]))
-    style = draw(st.sampled_from(list(styles)))
-    cellkind = draw(st.sampled_from(list(cellkinds)))
-    fmt = draw(st.sampled_from(FORMATS))
-    T = draw(st.integers(*frames))
-    fr = [draw(frame_st(d, style, cellkind, fmt)) for _ in range(T)]
-    t0 = draw(st.one_of(st.just(0), st.integers(0, 10**9)))
+def _steps(draw, T):
+    t0 = draw(st.one_of(st.just(0), st.integers(0, 10**9), st.integers(0, 10**9),
+                        st.sampled_from([2**31 - 1, 2**31, 2**32 + 7, 2**53 - 1, 2**53 + 1, 2**62 + 12345,
+                                         2**63 - 1 - 5 * 10**6 * max(T, 1)]),
+                        st.integers(2**31, 2**63 - 1 - 10**6 * max(T, 1) - 10**9)))
     # timestep schedules a simulation can write: increasing (usual), a frame re-dumped at the same step (run 0,
     # minimisation, restart appending the last step), a counter that goes back (reset_timestep), identical copies of a
     # whole frame.  One snapshot per frame in file order is promised whatever the TIMESTEP lines say.
@@ -78,33 +205,229 @@ def dump_st(draw, cellkinds=("ortho", "tri"), styles=("x", "xs", "xu"), frames=(
             steps.append(t0)
         else:
             steps.append(draw(st.integers(0, 10**6)))
+    return steps, sched
+
+
+@st.composite
+def dump_st(draw, cellkinds=("ortho", "tri"), styles=("x", "xs", "xu"), frames=(1, 1), nmax=None, plain_call=False):
+    d = draw(st.sampled_from([2, 3]))
+    style = draw(st.sampled_from(list(styles)))
+    cellkind = draw(st.sampled_from(list(cellkinds)))
+    fmt = draw(st.sampled_from(FORMATS))
+    T = draw(st.integers(*frames))
+    # `trajectory`: the everyday file (same N, cell and types in all frames, atoms move); `independent`: every frame
+    # drawn on its own (N, cell, trailing columns differ between frames)
+    mode = draw(st.sampled_from(["independent", "independent", "trajectory"])) if T > 1 else "independent"
+    if mode == "trajectory":
+        f0 = draw(frame_st(d, style, cellkind, fmt, N=None if nmax is None else draw(st.integers(0, nmax))))
+        fr = [f0]
+        for _ in range(T - 1):
+            g = draw(frame_st(d, style, cellkind, fmt, cell=f0["cell"], N=len(f0["ids"])))
+            types_by_id = np.zeros(len(f0["ids"]), dtype=np.int64)
+            types_by_id[f0["ids"] - 1] = f0["types"]
+            g["types"] = types_by_id[g["ids"] - 1]
+            for key in ("extra_names", "flags", "zcol"):
+                g[key] = f0[key]
+            g["extras"] = g["extras"][:, :0] if not len(f0["extra_names"]) else \
+                draw(hnp.arrays(np.float64, (len(g["ids"]), len(f0["extra_names"])), elements=fl(-100.0, 100.0)))
+            if (g["elem"] is None) != (f0["elem"] is None):
+                g["elem"] = None if f0["elem"] is None else {"values": [ELEMENTS[int(t) % len(ELEMENTS)] for t in g["types"]],
+                                                           "first": f0["elem"]["first"]}
+            elif g["elem"] is not None:
+                g["elem"]["first"] = f0["elem"]["first"]
+            fr.append(g)
+    else:
+        fr = [draw(frame_st(d, style, cellkind, fmt, N=None if nmax is None else draw(st.integers(0, nmax))))
+              for _ in range(T)]
+    steps, sched = _steps(draw, T)
     if sched in ("repeats", "all-equal") and T > 1 and draw(st.booleans()):
         k = draw(st.integers(1, T - 1))
         fr[k] = fr[k - 1]            # the very same frame written twice
-    return {"d": d, "style": style, "cellkind": cellkind, "fmt": fmt, "frames": fr, "timesteps": steps}
+    return {"d": d, "style": style, "cellkind": cellkind, "fmt": fmt, "frames": fr, "timesteps": steps, "mode": mode,
+            "layout": draw(layout_st()), "call": dict(CALL_PLAIN) if plain_call else draw(call_st())}
 
 
-def encode(case):
+# ---- seeded synthesis for the size classes (thousands of atoms / hundreds of frames do not fit a Hypothesis buffer)
+
+
+def boundary_sizes(blocks):
+    out = []
+    for B in blocks:
+        out += [B - 1, B, B + 1, 2 * B - 1, 2 * B + 1, B + B // 3]
+    return sorted(set(out))
+
+
+def _synth_cell(rng, d, cellkind):
+    L = np.round(rng.uniform(0.5, 50.0, d), int(rng.integers(0, 6)))
+    L = np.maximum(L, 0.5)
+    if rng.integers(0, 3) == 0:
+        L[:] = L[0]
+    H = np.diag(L)
+    if cellkind == "tri":
+        H[1, 0] = rng.uniform(-0.5, 0.5) * L[0]
+        if d == 3:
+            H[2, 0] = rng.uniform(-0.5, 0.5) * L[0] * rng.integers(0, 2)
+            H[2, 1] = rng.uniform(-0.5, 0.5) * L[1]
+    lo = np.zeros(d) if rng.integers(0, 3) == 0 else np.round(rng.uniform(-50.0, 50.0, d), 3)
+    return {"d": d, "kind": cellkind, "H": H, "lo": lo, "origin": "zero" if not lo.any() else "arbitrary"}
+
+
+def _synth_frame(rng, d, style, cell, N, order, nextra, names, zcol, flags, with_elem, wide_types):
+    if order == "ordered":
+        ids = np.arange(1, N + 1)
+    elif order == "reversed":
+        ids = np.arange(N, 0, -1)
+    else:
+        ids = rng.permutation(N) + 1
+    types = rng.integers(1, 4, N).astype(np.int64)
+    if wide_types and N:
+        types[rng.integers(0, N, max(1, N // 7))] = rng.choice(WIDE_TYPES, max(1, N // 7))
+    f = rng.random((N, d))
+    exc = np.zeros((N, d))
+    wrapmode = None
+    if style == "x" and cell["kind"] == "ortho":
+        wrapmode = ["inside", "mixed", "all-low", "all-high"][int(rng.integers(0, 4))]
+        u = rng.uniform(0.001, 0.98, (N, d))
+        if wrapmode == "mixed":
+            zone = rng.integers(-1, 2, (N, d))
+            exc = np.where(zone < 0, -u - f, np.where(zone > 0, 1.0 + u - f, 0.0))
+        elif wrapmode == "all-low":
+            exc = -u - f
+        elif wrapmode == "all-high":
+            exc = 1.0 + u - f
+    elif style == "xu":
+        exc = np.round(rng.uniform(-5.0, 5.0, (N, d)), 3) * (rng.random((N, d)) < 0.5)
+    elem = None
+    if with_elem:
+        elem = {"values": [ELEMENTS[int(k)] for k in rng.integers(0, len(ELEMENTS), N)], "first": bool(rng.integers(0, 2))}
+    return {"cell": cell, "ids": ids.astype(int), "types": types, "f": f, "exc": exc, "extra_names": names,
+            "extras": rng.uniform(-100.0, 100.0, (N, nextra)), "flags": flags, "zcol": zcol, "elem": elem,
+            "wrapmode": wrapmode}
+
+
+def synth_frames(spec):
+    """spec: seed, d, style, cellkind, Ns (list), order, same_cell -> list of frame dicts (pure function of spec)."""
+    rng = np.random.default_rng(spec["seed"])
+    d, style, cellkind = spec["d"], spec["style"], spec["cellkind"]
+    nextra = int(rng.integers(0, 4))
+    names = [EXTRA_NAMES[int(k)] for k in rng.permutation(len(EXTRA_NAMES))[:nextra]]
+    zcol = bool(rng.integers(0, 2)) if d == 2 else False
+    flags = FLAGS[int(rng.integers(0, len(FLAGS)))]
+    with_elem = rng.integers(0, 4) == 0
+    wide = rng.integers(0, 3) == 0
+    cell = _synth_cell(rng, d, cellkind)
+    out = []
+    for N in spec["Ns"]:
+        c = cell if spec["same_cell"] else _synth_cell(rng, d, cellkind)
+        out.append(_synth_frame(rng, d, style, c, int(N), spec["order"], nextra, names, zcol, flags, with_elem, wide))
+    return out
+
+
+def spread(items, *entropy):
+    """Element of `items` chosen by a hash of everything else drawn for the case.  Hypothesis re-uses parts of earlier
+    examples, so a size drawn with sampled_from comes in runs of equal values and whole boundary classes stay empty
+    in a run of a few hundred cases; cases never repeat as a whole, so the hash spreads the sizes evenly."""
+    return items[zlib.crc32(repr(entropy).encode()) % len(items)]
+
+
+@st.composite
+def sizes_st(draw, blocks, long_n=(), frame_blocks=()):
+    """Size-boundary classes: atoms per frame around block sizes, frames per file around block sizes, long files.
+    Every Hypothesis draw is made first; the size itself is `spread` over the hash of all of them."""
+    d = draw(st.sampled_from([2, 3]))
+    style = draw(st.sampled_from(["x", "xs", "xu"]))
+    cellkind = draw(st.sampled_from(["ortho", "tri"]))
+    kinds = ["atoms", "atoms", "frames"] + (["long"] if long_n else [])
+    kind = draw(st.sampled_from(kinds))
+    seed = draw(st.integers(0, 2**32 - 1))
+    order = draw(st.sampled_from(["random", "random", "ordered", "reversed"]))
+    same_cell = draw(st.booleans())
+    fmt = draw(st.sampled_from(FORMATS))
+    lay = draw(layout_st())
+    call = draw(call_st())
+    t0 = draw(st.one_of(st.integers(0, 10**9), st.sampled_from([2**31, 2**53 + 1, 2**62 + 12345])))
+    dt = draw(st.sampled_from([0, 1, 1000, 5000]))
+    T = draw(st.sampled_from([1, 1, 2, 3]))
+    vary = draw(st.booleans())
+    others = [draw(st.sampled_from(["one", "two", "minus", "plus", "same"])) for _ in range(2)]
+    nk = draw(st.sampled_from(["const1", "const", "vary"]))
+    n0 = draw(st.integers(1, 4))
+    tlong = draw(st.integers(1, 4))
+    ent = (seed, d, style, cellkind, kind, order, same_cell, fmt, sorted(lay.items()), sorted(call.items()), t0, dt,
+           T, vary, others, nk, n0, tlong)
+    if kind == "atoms":
+        N = spread(boundary_sizes(blocks), ent)
+        Ns = [N] * T
+        if T > 1 and vary:
+            Ns = [N] + [{"one": 1, "two": 2, "minus": N - 1, "plus": N + 1, "same": N}[o] for o in others[: T - 1]]
+        tag = f"size-boundary-{N}"
+    elif kind == "frames":
+        T = spread(boundary_sizes(frame_blocks or blocks), ent)
+        if nk == "const1":
+            Ns = [1] * T
+        elif nk == "const":
+            Ns = [n0] * T
+        else:
+            Ns = [int(v) for v in np.random.default_rng(seed ^ 0x5A5A5A5A).integers(0, 5, T)]
+        tag = f"frames-boundary-{T}"
+    else:
+        N = spread(list(long_n), ent)
+        Ns = [N] * tlong
+        tag = f"long-N{N}"
+    spec = {"seed": seed, "d": d, "style": style, "cellkind": cellkind, "Ns": Ns, "order": order, "same_cell": same_cell}
+    steps = [t0 + k * dt for k in range(len(Ns))]
+    return {"d": d, "style": style, "cellkind": cellkind, "fmt": fmt, "synth": spec,
+            "timesteps": steps, "mode": "synth", "size_tag": tag, "layout": lay, "call": call}
+
+
+def frames_of(case):
+    return case["frames"] if "frames" in case else synth_frames(case["synth"])
+
+
+# ----------------------------------------------------------------------------- encoder + expectation
+
+
+def _join(tokens, lay, pad_from=0):
+    sep = lay["sep"]
+    if sep == "1":
+        s = " ".join(tokens)
+    elif sep == "2":
+        s = "  ".join(tokens)
+    elif sep == "tab":
+        s = "\t".join(tokens)
+    elif sep == "mixed":
+        seps = [" ", "\t", "   ", " \t"]
+        s = tokens[0] + "".join(seps[k % 4] + t for k, t in enumerate(tokens[1:]))
+    else:  # "pad": right-aligned columns (LAMMPS `dump_modify format float %20.15g`)
+        s = " ".join(t if k < pad_from else t.rjust(max(len(t), 12) + (k % 3)) for k, t in enumerate(tokens))
+    return s + (" " if lay["trail"] else "")
+
+
+def encode(case, frames=None):
     """Returns (text, expected) where expected[k] holds the values the file encodes for frame k."""
     d, style, fmt = case["d"], case["style"], case["fmt"]
+    lay = case.get("layout") or LAYOUT_PLAIN
     out = []
     expected = []
     P = lambda v: fmt % v  # noqa: E731
-    for fr, ts in zip(case["frames"], case["timesteps"]):
+    bfmt = lay["bfmt"] or fmt
+    B = lambda v: bfmt % v  # noqa: E731
+    for fr, ts in zip(frames_of(case) if frames is None else frames, case["timesteps"]):
         cell = fr["cell"]
         H, lo = cell["H"], cell["lo"]
         L = np.diag(H)
         N = len(fr["ids"])
-        out.append("ITEM: TIMESTEP\n%d\nITEM: NUMBER OF ATOMS\n%d\n" % (ts, N))
+        out += ["ITEM: TIMESTEP", "%d" % ts, "ITEM: NUMBER OF ATOMS", "%d" % N]
         exp = {"timestep": ts, "nparticle": N}
+        flags = (" " + fr["flags"]) if lay["hdr_flags"] else ""
         if cell["kind"] == "ortho":
-            out.append("ITEM: BOX BOUNDS %s\n" % fr["flags"])
-            slo = [P(lo[k]) for k in range(d)]
-            shi = [P(lo[k] + L[k]) for k in range(d)]
+            out.append("ITEM: BOX BOUNDS" + flags)
+            slo = [B(lo[k]) for k in range(d)]
+            shi = [B(lo[k] + L[k]) for k in range(d)]
             for k in range(d):
-                out.append(f"{slo[k]} {shi[k]}\n")
+                out.append(_join([slo[k], shi[k]], lay))
             if d == 2:
-                out.append("-0.5 0.5\n")
+                out.append(_join([B(-0.5), B(0.5)], lay))
             plo = np.array([float(s) for s in slo])
             phi = np.array([float(s) for s in shi])
             exp["boxbounds"] = np.stack([plo, phi], axis=1)
@@ -123,11 +446,11 @@ def encode(case):
                 (lo[1] + min(0.0, yz), hi[1] + max(0.0, yz), xz),
                 (zlo, zhi, yz),
             ]
-            out.append("ITEM: BOX BOUNDS xy xz yz %s\n" % fr["flags"])
+            out.append("ITEM: BOX BOUNDS xy xz yz" + flags)
             parsed = []
             for a, b, c in lines:
-                sa, sb, sc = P(a), P(b), P(c)
-                out.append(f"{sa} {sb} {sc}\n")
+                sa, sb, sc = B(a), B(b), B(c)
+                out.append(_join([sa, sb, sc], lay))
                 parsed.append((float(sa), float(sb), float(sc)))
             (xlb, xhb, pxy), (ylb, yhb, pxz), (zlb, zhb, pyz) = parsed
             xlo = xlb - min(0.0, pxy, pxz, pxy + pxz)
@@ -143,30 +466,39 @@ def encode(case):
             rlo = real[:d, 0]
         cols = {"x": "x y z", "xs": "xs ys zs", "xu": "xu yu zu"}[style].split()
         ncoord = 3 if (d == 3 or fr["zcol"]) else 2
-        out.append("ITEM: ATOMS id type " + " ".join(cols[:ncoord] + fr["extra_names"]) + "\n")
+        elem = fr.get("elem")
+        trailing = list(fr["extra_names"])
+        if elem is not None:
+            trailing = (["element"] + trailing) if elem["first"] else (trailing + ["element"])
+        out.append("ITEM: ATOMS id type " + " ".join(cols[:ncoord] + trailing) + (" " if lay["trail"] else ""))
         pos = np.zeros((N, d))
-        types = np.zeros(N, dtype=int)
+        raw = np.zeros((N, d))
+        types = np.zeros(N, dtype=np.int64)
         wrapped = False
+        if style == "xs":
+            allvals = fr["f"]
+        else:
+            allvals = lo + (fr["f"] + fr["exc"]) @ H
+        wrap_here = style == "x" and cell["kind"] == "ortho"
+        if wrap_here:
+            blo, bhi = exp["boxbounds"][:, 0], exp["boxbounds"][:, 1]
+            bl = exp["boxlength"]
         for row in range(N):
             i = fr["ids"][row]
-            if style == "xs":
-                vals = fr["f"][row]
-            else:
-                vals = lo + (fr["f"][row] + fr["exc"][row]) @ H
-            svals = [P(v) for v in vals]
+            svals = [P(v) for v in allvals[row]]
             if ncoord > d:
                 svals.append(P(0.0))
             sextra = [P(v) for v in fr["extras"][row]]
-            out.append(" ".join([str(i), str(fr["types"][row])] + svals + sextra) + "\n")
+            if elem is not None:
+                sextra = ([elem["values"][row]] + sextra) if elem["first"] else (sextra + [elem["values"][row]])
+            out.append(_join([str(i), str(fr["types"][row])] + svals + sextra, lay, pad_from=2))
             pv = np.array([float(s) for s in svals[:d]])
             if style == "xs":
                 p = rlo + pv @ HH
-            elif style == "xu" or cell["kind"] == "tri":
+            elif not wrap_here:
                 p = pv
             else:
                 p = pv.copy()
-                blo, bhi = exp["boxbounds"][:, 0], exp["boxbounds"][:, 1]
-                bl = exp["boxlength"]
                 for k in range(d):
                     if p[k] < blo[k]:
                         p[k] = p[k] + bl[k]
@@ -175,24 +507,56 @@ def encode(case):
                         p[k] = p[k] - bl[k]
                         wrapped = True
             pos[i - 1] = p
+            raw[i - 1] = pv
             types[i - 1] = fr["types"][row]
         exp["positions"] = pos
+        exp["raw"] = raw
         exp["particle_type"] = types
         exp["wrapped"] = wrapped
+        exp["ambiguous"] = np.zeros((N, d), dtype=bool)
+        if wrap_here and N:
+            scale = np.maximum(1.0, np.maximum(np.abs(blo), np.abs(bhi)))
+            exp["ambiguous"] = (np.abs(raw - blo) <= 1e-9 * scale) | (np.abs(raw - bhi) <= 1e-9 * scale)
         expected.append(exp)
-    return "".join(out), expected
+    text = lay["eol"].join(out)
+    if lay["final_newline"]:
+        text += lay["eol"]
+    return text, expected
+
+
+def cmp_positions(t, got, e, atol):
+    want = e["positions"]
+    g = arr(f"{t}: positions", got, shape=want.shape)
+    if g.size == 0:
+        return
+    tol = atol + 1e-12 * np.abs(want)
+    ok = np.abs(g - want) <= tol
+    amb = e["ambiguous"]
+    if amb.any():
+        # a coordinate printed on a face: either periodic image is acceptable, nothing else is
+        L = e["boxlength"]
+        for alt in (e["raw"], e["raw"] + L, e["raw"] - L):
+            ok |= amb & (np.abs(g - alt) <= atol + 1e-12 * np.abs(alt))
+    if not ok.all():
+        i = tuple(int(v) for v in np.argwhere(~ok)[0])
+        raise Violation(f"{t}: positions differ at {i}: got {g[i]!r}, want {want[i]!r} "
+                        f"({int((~ok).sum())}/{g.size} entries; max |diff| {np.abs(g - want).max():.3e})")
 
 
 def compare(tag, snaps, expected, case):
     d = case["d"]
-    require(hasattr(snaps, "nsnapshots") and hasattr(snaps, "snapshots"), f"{tag}: result is not a Snapshots object: {snaps!r:.200}")
+    require(hasattr(snaps, "nsnapshots") and hasattr(snaps, "snapshots"), lambda: f"{tag}: result is not a Snapshots object: {snaps!r:.200}")
     require(snaps.nsnapshots == len(expected), f"{tag}: nsnapshots = {snaps.nsnapshots}, file holds {len(expected)} frames")
     require(len(snaps.snapshots) == len(expected), f"{tag}: {len(snaps.snapshots)} snapshots returned for {len(expected)} frames")
     for k, (s, e) in enumerate(zip(snaps.snapshots, expected)):
         t = f"{tag} frame {k}"
         require(s is not None, f"{t}: snapshot is None")
-        require(int(s.timestep) == e["timestep"], f"{t}: timestep {s.timestep} != {e['timestep']}")
-        require(int(s.nparticle) == e["nparticle"], f"{t}: nparticle {s.nparticle} != {e['nparticle']}")
+        try:
+            ts_got, n_got = int(s.timestep), int(s.nparticle)
+        except (TypeError, ValueError, OverflowError) as ex:
+            raise Violation(f"{t}: timestep / nparticle are not integers: {s.timestep!r}, {s.nparticle!r} ({ex})")
+        require(ts_got == e["timestep"], f"{t}: timestep {s.timestep!r} != {e['timestep']}")
+        require(n_got == e["nparticle"], f"{t}: nparticle {s.nparticle} != {e['nparticle']}")
         equal(f"{t}: particle_type", s.particle_type, e["particle_type"])
         scale = max(1.0, np.abs(e["boxbounds"]).max(), np.abs(e["positions"]).max(initial=0.0))
         atol = 4e-15 * scale * 8
@@ -202,55 +566,244 @@ def compare(tag, snaps, expected, case):
         if e["realbounds"] is not None:
             require(s.realbounds is not None, f"{t}: realbounds missing for a triclinic cell")
             close(f"{t}: realbounds", s.realbounds, e["realbounds"], rtol=1e-12, atol=atol)
-        close(f"{t}: positions", s.positions, e["positions"], rtol=1e-12, atol=atol)
+        cmp_positions(t, s.positions, e, atol)
         if case["style"] == "x" and case["cellkind"] == "ortho":
             p = arr(f"{t}: positions", s.positions, shape=(e["nparticle"], d))
             lo, hi = e["boxbounds"][:, 0], e["boxbounds"][:, 1]
-            require(np.all(p >= lo - atol) and np.all(p <= hi + atol), f"{t}: wrapped coordinates left outside the box")
+            # a coordinate printed within 1e-9 of a face may legitimately be left where it is
+            slack = np.where(e["ambiguous"], 2e-9 * np.maximum(1.0, np.maximum(np.abs(lo), np.abs(hi))), atol)
+            require(np.all(p >= lo - slack) and np.all(p <= hi + slack), f"{t}: wrapped coordinates left outside the box")
 
 
-def check(case):
-    text, expected = encode(case)
-    fn = os.path.join(os.getcwd(), "case.dump")
-    with open(fn, "w") as f:
+FNAMES = {"abs": None, "bare": "case.dump", "sub": "sub/run.1/case.v2.dump", "space": "my dump file.1.atom"}
+
+
+def file_name(kind, stem="case.dump"):
+    """The file-name forms callers use; cwd is the scratch directory of this shard."""
+    if kind == "abs":
+        return os.path.join(os.getcwd(), stem)
+    rel = FNAMES[kind] if stem == "case.dump" else os.path.join(os.path.dirname(FNAMES[kind]), stem)
+    if os.path.dirname(rel):
+        os.makedirs(os.path.dirname(rel), exist_ok=True)
+    return rel
+
+
+def write_text(fn, text):
+    with open(fn, "w", newline="") as f:   # newline="": the text is written byte for byte (CRLF stays CRLF)
         f.write(text)
-    d = case["d"]
-    compare("read_lammps_wrapper", read_lammps_wrapper(fn, d), expected, case)
-    rd = DumpReader(fn, ndim=d)
-    rd.read_onefile()
-    compare("DumpReader(default filetype)", rd.snapshots, expected, case)
-    rd = DumpReader(fn, ndim=d, filetype=DumpFileType.LAMMPS)
-    rd.read_onefile()
-    compare("DumpReader(LAMMPS)", rd.snapshots, expected, case)
 
-    fr0 = case["frames"]
-    shuffled = any(not np.array_equal(fr["ids"], np.arange(1, len(fr["ids"]) + 1)) for fr in fr0)
-    origin = any(np.any(fr["cell"]["lo"] != 0) for fr in fr0)
-    tilt = any(np.any(fr["cell"]["H"] != np.diag(np.diag(fr["cell"]["H"]))) for fr in fr0)
-    negtilt = any(np.any(fr["cell"]["H"] < 0) for fr in fr0)
-    nontrivial = bool(shuffled or origin or tilt or case["style"] != "x" or len(fr0) >= 2)
-    tags = [f"d{d}", case["style"], case["cellkind"], f"frames{len(fr0)}", "fmt" + case["fmt"],
+
+def readers(fn, d, call):
+    nd = np.int64(d) if call["ndim_as"] == "np.int64" else d
+    kw = {"moltypes": {1: 1, 3: 2}, "columnsids": [5, 6]} if call["reader_opts"] else {}
+
+    def via(**k):
+        rd = DumpReader(fn, ndim=nd, **k)
+        rd.read_onefile()
+        return rd.snapshots
+
+    return [("read_lammps_wrapper", lambda: read_lammps_wrapper(fn, nd)),
+            ("DumpReader(default filetype)", lambda: via(**kw)),
+            ("DumpReader(LAMMPS)", lambda: via(filetype=DumpFileType.LAMMPS, **kw))]
+
+
+def case_tags(case, frames, expected, text):
+    d = case["d"]
+    lay = case.get("layout") or LAYOUT_PLAIN
+    call = case.get("call") or CALL_PLAIN
+    shuffled = any(not np.array_equal(fr["ids"], np.arange(1, len(fr["ids"]) + 1)) for fr in frames)
+    origin = any(np.any(fr["cell"]["lo"] != 0) for fr in frames)
+    tilt = any(np.any(fr["cell"]["H"] != np.diag(np.diag(fr["cell"]["H"]))) for fr in frames)
+    negtilt = any(np.any(fr["cell"]["H"] < 0) for fr in frames)
+    nontrivial = bool(shuffled or origin or tilt or case["style"] != "x" or len(frames) >= 2)
+    T = len(frames)
+    tags = [f"d{d}", case["style"], case["cellkind"], f"frames{T}" if T <= 4 else "frames5+", "fmt" + case["fmt"],
             "shuffled" if shuffled else "ordered", "origin" if origin else "origin0"]
     if negtilt:
         tags.append("negtilt")
+    if any(len(set(np.diag(fr["cell"]["H"]).tolist())) > 1 for fr in frames):
+        tags.append("unequal-edges")
     ts = case["timesteps"]
     if len(ts) > 1:
         tags.append("timesteps-increasing" if all(b > a for a, b in zip(ts, ts[1:])) else
                     ("timesteps-repeat-consecutive" if any(b == a for a, b in zip(ts, ts[1:])) else "timesteps-unordered"))
+    tmax = max(ts)
+    tags.append("ts-ge-2^62" if tmax >= 2**62 else "ts-ge-2^53" if tmax >= 2**53 else "ts-ge-2^31" if tmax >= 2**31 else "ts-small")
     if any(e["wrapped"] for e in expected):
         tags.append("wrap-applied")
-    if any(fr["extra_names"] for fr in fr0):
+    for m in sorted({fr.get("wrapmode") for fr in frames if fr.get("wrapmode") and len(fr["ids"])}):
+        tags.append("wrap-" + m)
+    if any(e["ambiguous"].any() for e in expected):
+        tags.append("wrap-ambiguous-face-coordinate")
+    if any(fr["extra_names"] for fr in frames):
         tags.append("extras")
-    if len({len(fr["ids"]) for fr in fr0}) > 1:
-        tags.append("N-varies")
-    if any(len(fr["ids"]) == 0 for fr in fr0):
-        tags.append("empty-frame-last-only" if all(len(fr["ids"]) > 0 for fr in fr0[:-1]) else "empty-frame-not-last")
+    if any(fr.get("elem") is not None for fr in frames):
+        tags.append("extra-element")
+    Ns = [len(fr["ids"]) for fr in frames]
+    if T > 1:
+        tags.append("N-varies" if len(set(Ns)) > 1 else "N-constant")
+        tags.append("mode-" + case.get("mode", "independent"))
+    if 0 in Ns:
+        tags.append("empty-frame-last-only" if all(n > 0 for n in Ns[:-1]) else "empty-frame-not-last")
+    if 1 in Ns:
+        tags.append("N1")
+        if T > 1 and set(Ns) == {1}:
+            tags.append("N1-all-frames")
+    if any(2 <= n <= 12 for n in Ns):
+        tags.append("N2-12")
+    if any(np.any(fr["types"] > 9) for fr in frames):
+        tags.append("types-wide")
+    else:
+        tags.append("types-1-9")
+    if "size_tag" in case:
+        tags.append(case["size_tag"])
+    kib = len(text) / 1024.0
+    for lim in (1024, 64, 8):
+        if kib > lim:
+            tags.append(f"long-file-{lim}KiB")
+            break
+    # text layout
+    tags.append("layout-" + lay.get("kind", "plain"))
+    if lay["eol"] == "\r\n":
+        tags.append("eol-crlf")
+    if lay["sep"] != "1":
+        tags.append("sep-" + {"2": "double", "tab": "tab", "mixed": "mixed", "pad": "pad"}[lay["sep"]])
+    if lay["trail"]:
+        tags.append("trail-blank")
+    if not lay["final_newline"]:
+        tags.append("no-final-newline")
+    if not lay["hdr_flags"]:
+        tags.append("header-no-flags")
+    if lay["bfmt"]:
+        tags.append("bounds-fmt-" + lay["bfmt"])
+    tags.append("name-" + call["fname"])
+    if call["ndim_as"] != "int":
+        tags.append("ndim-np-int64")
+    if call["reader_opts"]:
+        tags.append("reader-opts-ignored")
+    return nontrivial, tags
+
+
+def check(case):
+    frames = frames_of(case)
+    text, expected = encode(case, frames)
+    call = case.get("call") or CALL_PLAIN
+    fn = file_name(call["fname"])
+    write_text(fn, text)
+    d = case["d"]
+    for tag, get in readers(fn, d, call):
+        compare(tag, get(), expected, case)
+    nontrivial, tags = case_tags(case, frames, expected, text)
     return {"nontrivial": nontrivial, "tags": tags}
 
 
 def describe(case):
     text, _ = encode(case)
-    return {"d": case["d"], "style": case["style"], "cell": case["cellkind"], "text": text[:700]}
+    return {"d": case["d"], "style": case["style"], "cell": case["cellkind"], "layout": case.get("layout"),
+            "call": case.get("call"), "text": text[:700]}
+
+
+# ----------------------------------------------------------------------------- read sequences (results kept alive)
+
+
+@st.composite
+def sequence_st(draw):
+    d = draw(st.sampled_from([2, 3]))
+    nfiles = draw(st.integers(2, 3))
+    share_n = draw(st.booleans())          # equal shapes across files: a buffer keyed on the shape would be re-used
+    nfix = draw(st.integers(1, 5))
+    tfix = draw(st.integers(1, 3))
+    files = []
+    for _ in range(nfiles):
+        style = draw(st.sampled_from(["x", "xs", "xu"]))
+        cellkind = draw(st.sampled_from(["ortho", "tri"]))
+        fmt = draw(st.sampled_from(FORMATS))
+        T = tfix if share_n else draw(st.integers(1, 3))
+        fr = [draw(frame_st(d, style, cellkind, fmt, N=nfix if share_n else draw(st.integers(0, 5)))) for _ in range(T)]
+        steps, _ = _steps(draw, T)
+        files.append({"d": d, "style": style, "cellkind": cellkind, "fmt": fmt, "frames": fr, "timesteps": steps,
+                      "mode": "independent", "layout": draw(layout_st()), "call": dict(CALL_PLAIN)})
+    nsteps = draw(st.integers(3, 7))
+    plan = []
+    for _ in range(nsteps):
+        plan.append({"file": draw(st.integers(0, nfiles - 1)), "slot": draw(st.integers(0, 1)),
+                     "via": draw(st.sampled_from(["wrapper", "reader-new", "reader-same", "reader-same"]))})
+    return {"d": d, "files": files, "plan": plan, "fname": draw(st.sampled_from(["abs", "bare"])), "share_n": share_n}
+
+
+def _snap_copy(snaps):
+    return copy.deepcopy(snaps)
+
+
+def _same_bits(tag, now, then):
+    require(now.nsnapshots == then.nsnapshots and len(now.snapshots) == len(then.snapshots),
+            f"{tag}: the number of snapshots of a result handed out earlier changed")
+    for k, (a, b) in enumerate(zip(now.snapshots, then.snapshots)):
+        require(a.timestep == b.timestep and a.nparticle == b.nparticle,
+                f"{tag} frame {k}: timestep / nparticle of a result handed out earlier changed")
+        for name in ("particle_type", "positions", "boxlength", "boxbounds", "realbounds", "hmatrix"):
+            x, y = getattr(a, name), getattr(b, name)
+            if y is None:
+                require(x is None, f"{tag} frame {k}: {name} of a result handed out earlier changed")
+                continue
+            require(x is not None and np.array_equal(np.asarray(x), np.asarray(y), equal_nan=True),
+                    f"{tag} frame {k}: {name} of a result handed out earlier was modified by a later read")
+
+
+def check_sequence(case):
+    d = case["d"]
+    enc = [encode(fc) for fc in case["files"]]
+    slots = [file_name(case["fname"], stem=f"slot{k}.dump") for k in (0, 1)]
+    held = []                      # (label, result, copy at return, expected, file case)
+    shared = {}                    # slot -> DumpReader re-used for every 'reader-same' read of that slot
+    last_in_slot = {}
+    rewrites = 0
+    for n, st_ in enumerate(case["plan"]):
+        k, slot = st_["file"], st_["slot"]
+        text, expected = enc[k]
+        fn = slots[slot]
+        if last_in_slot.get(slot) != k:
+            if slot in last_in_slot:
+                rewrites += 1
+            write_text(fn, text)            # same name, other contents
+            last_in_slot[slot] = k
+        if st_["via"] == "wrapper":
+            res = read_lammps_wrapper(fn, d)
+        elif st_["via"] == "reader-new":
+            rd = DumpReader(fn, ndim=d, filetype=DumpFileType.LAMMPS)
+            rd.read_onefile()
+            res = rd.snapshots
+        else:
+            rd = shared.get(slot)
+            if rd is None:
+                rd = shared[slot] = DumpReader(fn, ndim=d)
+            rd.read_onefile()               # second and later evaluations of one object
+            res = rd.snapshots
+        label = f"read {n} ({st_['via']}, file {k} in slot {slot})"
+        compare(label, res, expected, case["files"][k])
+        held.append((label, res, _snap_copy(res), expected, case["files"][k]))
+    for label, res, cp, expected, fc in held:
+        _same_bits(label + " re-examined after all reads", res, cp)
+        compare(label + " re-examined after all reads", res, expected, fc)
+    nsame = sum(1 for s in case["plan"] if s["via"] == "reader-same")
+    tags = [f"d{d}", f"reads{len(case['plan'])}", f"files{len(case['files'])}", "name-" + case["fname"],
+            "shapes-shared" if case["share_n"] else "shapes-differ",
+            "slot-rewritten" if rewrites else "slot-written-once"]
+    if nsame >= 2:
+        tags.append("one-reader-object-reused")
+    if len({s["file"] for s in case["plan"]}) > 1:
+        tags.append("files-alternate")
+    if any(fc["layout"]["eol"] == "\r\n" for fc in case["files"]):
+        tags.append("eol-crlf")
+    return {"nontrivial": bool(rewrites or len({s["file"] for s in case["plan"]}) > 1), "tags": tags}
+
+
+def describe_sequence(case):
+    return {"d": case["d"], "plan": case["plan"], "fname": case["fname"],
+            "files": [{"style": fc["style"], "cell": fc["cellkind"], "text": encode(fc)[0][:300]} for fc in case["files"]]}
+
+
+# ----------------------------------------------------------------------------- facets
 
 
 def _facet(name, n, nt, **kw):
@@ -265,14 +818,29 @@ FACETS = [
     _facet("tri_xs", 300, 20000, cellkinds=("tri",), styles=("xs",)),
     _facet("tri_xu", 200, 20000, cellkinds=("tri",), styles=("xu",)),
     _facet("multi_frame", 300, 20000, frames=(2, 4)),
+    Facet("sizes", sizes_st(BLOCKS_QUICK, frame_blocks=[32, 64, 100, 128]), check, quick=360, thorough=0, describe=describe,
+          shards_quick=4,
+          rule="size-boundary classes, quick: atoms per frame B-1, B, B+1, 2B-1, 2B+1, B+B//3 for B in {32, 64, 100, 128, "
+               "256} (1-3 frames), frames per file around B in {32, 64, 100, 128} with 0-4 atoms each; seeded synthesis; "
+               "all layouts / styles / cells"),
+    Facet("sizes_large", sizes_st(BLOCKS_QUICK + BLOCKS_THOROUGH, long_n=(5000, 10000, 20000),
+                                  frame_blocks=BLOCKS_QUICK + BLOCKS_THOROUGH),
+          check, quick=0, thorough=1600, describe=describe,
+          rule="thorough tier only: as sizes with B in {32, 50, 64, 100, 128, 200, 256, 500, 512, 1000, 1024} (N up to 2049, frames up to 2049) and long files "
+               "(N = 5000, 10000, 20000 x 1-4 frames: 0.2 - 5 MiB, beyond every I/O buffer size)"),
+    Facet("sequence", sequence_st(), check_sequence, quick=250, thorough=12000, describe=describe_sequence, shards_quick=2,
+          rule="2-3 small files x 3-7 reads under two re-used file names (contents replaced between reads), through "
+               "read_lammps_wrapper, fresh DumpReader objects and ONE DumpReader evaluated repeatedly; every result "
+               "compared at return and again (oracle + bit-for-bit with a copy taken at return) after all reads; "
+               "non-trivial = a file name was re-used for other contents or >= 2 files alternate"),
 ]
 
 # coverage-guided shards (pbt/fuzz.py: atheris mutates the byte stream behind the same strategy, reader modules
 # instrumented for edge coverage, same round-trip oracle); runs = byte buffers tried
 FUZZ = {
-    "multi_frame": {"quick": 1200, "thorough": 60000},
-    "tri_xs": {"quick": 1200, "thorough": 40000},
-    "ortho_xs": {"quick": 1200, "thorough": 40000},
-    "ortho_x_xu": {"quick": 1200, "thorough": 40000},
+    "multi_frame": {"quick": 1000, "thorough": 60000},
+    "tri_xs": {"quick": 800, "thorough": 40000},
+    "ortho_xs": {"quick": 800, "thorough": 40000},
+    "ortho_x_xu": {"quick": 1000, "thorough": 40000},
+    "sequence": {"quick": 500, "thorough": 20000},
 }
-
